@@ -1,6 +1,24 @@
+import importlib.util, os
+_p13 = os.path.join(os.path.dirname(os.path.abspath(__file__)), "..", "C13", "spec.py")
+_s13 = importlib.util.spec_from_file_location("spec_C13_for_C20", _p13)
+_m13 = importlib.util.module_from_spec(_s13)
+_s13.loader.exec_module(_m13)
+
+def _main_backup():
+    """e2fsck/unix.c main() through its final close (source harness/C13/main_e2fsck_full.c): a repairing run that completed on
+    a valid filesystem whose first backup disagrees with the primary ends with MASTER_SB_ONLY cleared (backups refreshed)"""
+    for h in _m13.HARNESSES:
+        if h["name"] == "main_e2fsck_full":
+            d = dict(h)
+            d["name"] = "e2fsck_main_backup"
+            d["src"] = "../C13/main_e2fsck_full.c"
+            d["configs"] = [c for c in h["configs"] if c.get("RST") in (0, 2)]
+            return d
+    raise RuntimeError("C13 main_e2fsck_full harness missing")
+
 META = {
     "assumptions": ["allocation failure out of scope (--no-malloc-may-fail)"],
-    "outside": ["e2fsck -b end-to-end recovery and 'every file intact' (whole tool)"],
+    "outside": ["e2fsck -b end-to-end recovery and 'every file intact' (whole tool)", "e2fsck main(): passes and helpers are protocol stubs (see C13 main_e2fsck_full)"],
 }
 def fb_uw(maxg):
     nlog = 3 * maxg + 4
@@ -27,6 +45,7 @@ HARNESSES = [
          funcs=["check_backup_super_block", "ext2fs_bg_has_super", "ext2fs_group_first_block2"],
          unwind=8, unwindset=["test_root.0:6", "memcmp.0:17", "main.0:7", "main.1:17", "main.2:17"], backends=["default", "kissat"],
          bound="1..6 groups; primary superblock, candidate backup superblock (all 1024 bytes each), fs flags, e2fsck flags/options symbolic"),
+    _main_backup(),
     dict(name="bg_has_super", src="bg_has_super.c",
          funcs=["ext2fs_bg_has_super", "test_root"],
          unwindset=["test_root.0:22", "ref_is_power.0:22"],
